@@ -567,6 +567,17 @@ def run(ctx):
                  '</xs:complexType></xs:element></xs:schema>')
     for k, (oname, opts, mut) in enumerate(osets[:3]):
         generation_case(ctx, "xsd", {"h.xsd": empty_xsd}, ["h.xsd"], oname, opts, mut, traces, f"empty-names-{k}", must_generate=True)
+    # reference cycles that close through INHERITANCE (a type refers to an extension of itself), directly and over
+    # three types, next to an element-only cycle: valid schemas, every structure style has to cope
+    ext_cycle = ('<xs:schema xmlns:xs="http://www.w3.org/2001/XMLSchema" targetNamespace="urn:h" xmlns:t="urn:h" elementFormDefault="qualified">'
+                 '<xs:complexType name="Node"><xs:sequence><xs:element name="label" type="xs:string"/><xs:element name="child" type="t:Branch" minOccurs="0" maxOccurs="unbounded"/></xs:sequence></xs:complexType>'
+                 '<xs:complexType name="Branch"><xs:complexContent><xs:extension base="t:Node"><xs:sequence><xs:element name="weight" type="xs:int" minOccurs="0"/>'
+                 '<xs:element name="twig" type="t:Twig" minOccurs="0"/></xs:sequence></xs:extension></xs:complexContent></xs:complexType>'
+                 '<xs:complexType name="Twig"><xs:complexContent><xs:extension base="t:Branch"><xs:sequence><xs:element name="peer" type="t:Peer" minOccurs="0"/></xs:sequence></xs:extension></xs:complexContent></xs:complexType>'
+                 '<xs:complexType name="Peer"><xs:sequence><xs:element name="back" type="t:Peer" minOccurs="0"/><xs:element name="up" type="t:Node" minOccurs="0"/></xs:sequence></xs:complexType>'
+                 '<xs:element name="tree" type="t:Node"/></xs:schema>')
+    for k, (oname, opts, mut) in enumerate(osets):
+        generation_case(ctx, "xsd", {"h.xsd": ext_cycle}, ["h.xsd"], oname, opts, mut, traces, f"ext-cycle-{k}", must_generate=True)
     # the finding F47 is exercised by its reproducer in every run (and its counterpart, the same key naming a VALUE)
     generation_case(ctx, "json-sample", {"h.json": '{"a\\nb": {"k": 1}}'}, ["h.json"], "namespaces-camel", osets[5][1], osets[5][2], traces, "f47")
     generation_case(ctx, "json-sample", {"h.json": '{"a\\nb": 1, "c\\"d": [2]}'}, ["h.json"], "namespaces-camel", osets[5][1], osets[5][2], traces, "f47-ok")
